@@ -1093,6 +1093,11 @@ theorem Inv.shutdown {S : SpecSt} {M : St} (h : Inv S M) (n : Nat) :
     have : c2.node ≠ n := hne
     simp only [upd_other _ _ this]; exact h4
 
+/-- Lookups in flight are bookkeeping of the observer: no invariant mentions them. -/
+theorem Inv.setPending {S : SpecSt} {M : St} (h : Inv S M) (p : FMap (Nat × Nat) (Option Conn)) :
+    Inv S { M with pending := p } :=
+  ⟨h.now_eq, h.nodeOk, h.conns_opened, h.store, h.live, h.down_eq⟩
+
 /-! ## one step -/
 
 theorem Inv.step {P : Params} (hv : P.v = repaired) (httl : 0 < P.ttl) {S : SpecSt} {M : St} (h : Inv S M)
@@ -1118,6 +1123,8 @@ theorem Inv.step {P : Params} (hv : P.v = repaired) (httl : 0 < P.ttl) {S : Spec
       · simpa [specStep, stepOk, Tunnox.C08.step, sweepStale, hc] using h
   | kick c => exact h.kick c
   | shutdown n => exact h.shutdown n
+  | lookBegin j x => exact h.setPending _
+  | lookEnd j x => exact h.setPending _
   | tick dt => exact h.tick dt
 
 /-! ## what the invariant says about an observation -/
